@@ -30,9 +30,9 @@ type cliCall struct {
 	Matcher   int  `json:"matcher"` // 0 nil, 1 type==Want, 2 reject all, 3 accept the K-th candidate, 4 block on the first candidate until ReleaseAt, then type==Want
 	Want      int  `json:"want"`
 	K         int  `json:"k"`
-	CancelAt  int  `json:"cancel_at"`  // odd tick, -1 none
-	Deadline  int  `json:"deadline"`   // context deadline, odd ticks after start, -1 none
-	ReleaseAt int  `json:"release_at"` // odd tick (matcher 4)
+	CancelAt  int  `json:"cancel_at"`     // odd tick, -1 none
+	Deadline  int  `json:"deadline"`      // context deadline, odd ticks after start, -1 none
+	ReleaseAt int  `json:"release_at"`    // odd tick (matcher 4)
 	Ctx       int  `json:"ctx,omitempty"` // without cancellation and deadline: 0 a cancellable context nobody cancels before the end, 1 context.Background(), 2 context.TODO(), 3 a value context over Background (none of 1..3 can ever end)
 	Started   bool `json:"-"`
 }
@@ -64,7 +64,7 @@ type cliScenario struct {
 	DoubleClose bool         `json:"double_close"`
 	LogDropped  bool         `json:"log_dropped"`           // nclient6: WithLogDroppedPackets
 	CloseFails  bool         `json:"close_fails,omitempty"` // fault injection: the socket's own Close reports an error (it is closed all the same)
-	Knob        int          `json:"knob,omitempty"` // other documented configuration of the client (adapter.start): 1 nclient4 WithHWAddr over a different constructor address
+	Knob        int          `json:"knob,omitempty"`        // other documented configuration of the client (adapter.start): 1 nclient4 WithHWAddr over a different constructor address
 	LogMode     int          `json:"log_mode,omitempty"`    // logging configuration of the client (adapter.start); 0: none
 	Dest        int          `json:"dest,omitempty"`        // destination selector (adapter.setDest): other ports, broadcast, zoned IPv6 addresses
 	Window      int          `json:"window,omitempty"`      // unlimited tries are watched for this many tries before the runner cancels (0: 11)
